@@ -52,6 +52,20 @@ func (p *C09) Gen(seed uint64, i int, tier string) *scen.Scenario {
 		}
 		return []scen.Op{{Kind: "color", B: []bool{true}}}
 	}
+	// two custom severities, registered (before anything is printed) with a foreground colour only, with
+	// both colours, without colours, or not at all; 12 and -7 are never registered
+	for _, lv := range []int{33, 47} {
+		op := scen.Op{Op: "register_level", Lvl: lv, Name: fmt.Sprintf("custom%d", lv)}
+		switch r.Intn(4) {
+		case 0:
+			continue
+		case 1:
+			op.Opts = []scen.Op{{Kind: "color", I: int64(r.Range(30, 37))}}
+		case 2:
+			op.Opts = []scen.Op{{Kind: "color", I: int64(r.Range(30, 37)), J: int64(scen.Pick(r, []int{5, 7, 41, 44}))}}
+		}
+		sc.Setup = append(sc.Setup, op)
+	}
 	nL := r.Range(1, 5)
 	for id := 1; id <= nL; id++ {
 		op := scen.Op{Op: "new_root", R: id, Name: fmt.Sprintf("l%d", id), Named: true}
@@ -130,8 +144,7 @@ func (p *C09) Gen(seed uint64, i int, tier string) *scen.Scenario {
 			if r.Chance(1, 4) {
 				// another record from the probe's own call site (the commonest history of all: the same
 				// statement logging again and again), with its own content
-				op = scen.Op{Op: "write_thru", L: op.L, Kind: "pc", Lvl: op.Lvl, Msg: op.Msg, Tok: op.Tok, Args: op.Args,
-					T: &scen.TimeSpec{S: 1500000000 + int64(r.Intn(100000000)), Ns: int64(r.Intn(1e9))}}
+				op = scen.Op{Op: "write_thru", L: op.L, Kind: "pc", Lvl: op.Lvl, Msg: op.Msg, Tok: op.Tok, Args: op.Args, T: c09Near(r, probe.T)}
 			}
 			for q := range op.Args {
 				if r.Chance(1, 3) {
@@ -146,6 +159,12 @@ func (p *C09) Gen(seed uint64, i int, tier string) *scen.Scenario {
 	}
 	// the same probe again, several times (each gets whatever context the pool hands out)
 	for k := r.Range(1, 3); k > 0; k-- {
+		if r.Chance(1, 3) {
+			// the record formatted right before the probe: the probe's own instant seen from another zone,
+			// the same second, or a neighbour - on the probe's logger or another one
+			tk++
+			sc.Tail = append(sc.Tail, scen.Op{Op: "write_thru", L: scen.Pick(r, []int{probe.L, r.Range(1, nL)}), Kind: "pc", Lvl: scen.Pick(r, sevs), Msg: "n" + tok(tk), Tok: tok(tk), T: c09Near(r, probe.T)})
+		}
 		sc.Tail = append(sc.Tail, probe)
 		if r.Bool() && nL > 0 {
 			tk++
@@ -154,6 +173,23 @@ func (p *C09) Gen(seed uint64, i int, tier string) *scen.Scenario {
 		}
 	}
 	return sc
+}
+
+// c09Near is an instant for a history record given through WriteThru: unrelated to the probe's, or
+// the very same instant in another zone, or in the same second, or a little earlier or later.
+func c09Near(r *scen.Rng, p *scen.TimeSpec) *scen.TimeSpec {
+	zone := scen.Pick(r, []string{"UTC", "+02:00", "+08:00", "-05:00", "+05:45"})
+	switch r.Intn(6) {
+	case 0:
+		return &scen.TimeSpec{S: p.S, Ns: p.Ns, Zone: zone}
+	case 1:
+		return &scen.TimeSpec{S: p.S, Ns: int64(r.Intn(1e9)), Zone: scen.Pick(r, []string{p.Zone, zone})}
+	case 2:
+		return &scen.TimeSpec{S: p.S + int64(r.Range(-3, 3)), Ns: p.Ns, Zone: scen.Pick(r, []string{p.Zone, zone})}
+	case 3:
+		return &scen.TimeSpec{S: p.S + int64(scen.Pick(r, []int{-86400, 86400, -3600, 3600, -31536000})), Ns: int64(r.Intn(1e9)), Zone: p.Zone}
+	}
+	return &scen.TimeSpec{S: 1500000000 + int64(r.Intn(100000000)), Ns: int64(r.Intn(1e9)), Zone: scen.Pick(r, []string{"", zone})}
 }
 
 // noAddresses drops the value kinds whose text contains a heap address (func, chan, pointer).
